@@ -3,7 +3,7 @@
     instrumentation observed in this process.
 """
 import os, sys, json, time, importlib, traceback, warnings
-from pmv import common, instrument
+from pmv import common, instrument, gen
 
 def load (pid):
     return importlib.import_module ('pmv.props.' + pid.lower ())
@@ -38,6 +38,12 @@ def run_case (mod, spec):
                                  , msg = 'exception from repository code in %s: %s'
                                        % (e.where, str (e.exc) [:300])
                                  , tb = e.tb)]
+            )
+    except gen.Locate_Error as e:
+        res = dict \
+            ( status = 'violation', sig = 'locate', nontrivial = True
+            , violations = [dict ( monitor = 'locate', key = 'pulse-not-at-expected-location'
+                                 , msg = 'source / load placed by location: %s (the geometry is not where the documented construction puts it)' % e)]
             )
     except common.Rejected as e:
         res = dict (status = 'discard', reason = 'rejected: ' + str (e) [:80])
